@@ -392,3 +392,121 @@ class FeeFinalize(Job):
 
 
 JOBS["C06"] = [FeeNew(), FeeConsume("execution"), FeeConsume("finalization"), FeeFinalize()]
+
+
+class FeeRepayAll(Job):
+    """repay_all applies the deferred units (payload / signature validation costs recorded before the loan is repaid)
+    through the same limit and balance checks as direct consumption."""
+    crate = "radix-engine"
+    query_timeout_s = 120
+    max_unroll = 20
+
+    def __init__(self):
+        self.name = "c06m::fee_reserve_repay_all"
+        self.what = ("SystemLoanFeeReserve::repay_all from an arbitrary reserve state (any committed and deferred execution / "
+                     "finalization units, balance and amount owed; no deferred storage): it succeeds exactly when the deferred "
+                     "units fit under both unit limits, the balance pays for them and then covers the amount owed; afterwards "
+                     "committed units (now including the deferred ones) never exceed their limits, nothing is deferred or "
+                     "owed any more, and the balance dropped by exactly price * deferred units + owed")
+        self.cover_labels = ["repaid with deferred units", "deferred units exceed the limit", "loan not repayable"]
+
+    def locate(self, prog):
+        return find_function(prog, "costing/fee_reserve.rs", "repay_all", nparams=1)
+
+    def inputs(self):
+        d = {k: z3.Int(k) for k in PARAMS + STATE}
+        pre = param_pre(d)
+        for k in ("U", "Ud", "Uf", "Ufd"):
+            pre += [d[k] >= 0, d[k] <= U32]
+        for k in ("peff", "pfeff", "bal", "owed", "roy", "stor"):
+            pre += [d[k] >= 0, d[k] <= AMAX]
+        pre += [d["peff"] <= 2 * PMAX * 10 ** 5, d["pfeff"] <= 2 * PMAX * 10 ** 5, d["U"] <= d["limit"], d["Uf"] <= d["flimit"]]
+        return d, pre
+
+    def setup_path(self, path, inp):
+        path.frames["job"] = {"self": reserve_v({k: lit(v) for k, v in inp.items()})}
+
+    def args(self, inp):
+        return [RefV("&mut SystemLoanFeeReserve", "job", "self", ())]
+
+    def extract_outcome(self, o):
+        d = read_reserve(o.path.frames["job"]["self"])
+        d["ok"] = o.value.discr == 0
+        return d
+
+    def native(self, nat, vals):
+        """scenario through the public API: a reserve whose loan is larger than every unit count used (so nothing is repaid
+        before), funded by a lock, deferred units recorded, committed units consumed, then repay_all"""
+        params = native_params(vals)
+        params[2] = U32                    # loan: never reached by consume_execution
+        params[10] = 0
+        t0 = nat.call("fee_run", *(params + ["BAL"])).split()
+        if t0[0] == "panic":
+            return {"panic": True, "msg": " ".join(t0[1:])}
+        return {"panic": False, "note": "see native_failed"}
+
+    native_only_keys = ("note",)
+
+    def post(self, inp, res):
+        if "bal" not in res:
+            return []
+        d = {k: lit(v) for k, v in inp.items()}
+        r = {k: lit(v) for k, v in res.items() if not isinstance(v, str)}
+        cost = d["peff"] * d["Ud"] + d["pfeff"] * d["Ufd"]
+        fits = z3.And(d["U"] + d["Ud"] <= d["limit"], d["Uf"] + d["Ufd"] <= d["flimit"])
+        # the execution part is applied first: a failing finalization part leaves the execution part applied
+        ok_expected = z3.And(fits, d["bal"] >= cost + d["owed"])
+        return [("succeeds exactly when the deferred units fit under the limits and the balance covers them and the loan",
+                 r["ok"] == ok_expected),
+                ("committed units never exceed their limits afterwards, whatever the outcome",
+                 z3.And(r["U"] <= d["limit"], r["Uf"] <= d["flimit"])),
+                ("on success the deferred units are committed, nothing is deferred or owed, the balance paid for all of it",
+                 z3.Implies(r["ok"], z3.And(r["U"] == d["U"] + d["Ud"], r["Uf"] == d["Uf"] + d["Ufd"], r["Ud"] == 0, r["Ufd"] == 0,
+                                            r["owed"] == 0, r["bal"] == d["bal"] - cost - d["owed"])))]
+
+    def covers(self, inp, res):
+        d = {k: lit(v) for k, v in inp.items()}
+        ok = lit(res["ok"])
+        return [("repaid with deferred units", z3.And(ok, d["Ud"] > 0, d["owed"] > 0)),
+                ("deferred units exceed the limit", z3.And(z3.Not(ok), d["U"] + d["Ud"] > d["limit"])),
+                ("loan not repayable", z3.And(z3.Not(ok), d["U"] + d["Ud"] <= d["limit"], d["Uf"] + d["Ufd"] <= d["flimit"]))]
+
+    def vectors(self, rng):
+        return []
+
+    def native_failed(self, nat, vals, label):
+        """replay: committed execution units U, deferred Ud (and finalization likewise) against the limits, through
+        consume_execution / consume_deferred_execution / repay_all of the public API; the loan is kept above the committed
+        units so that only the final repay_all applies the deferred units"""
+        params = native_params(vals)
+        params[10] = 0
+        U, Ud, Uf, Ufd = int(vals["U"]), int(vals["Ud"]), int(vals["Uf"]), int(vals["Ufd"])
+        params[2] = min(U32, max(U + 1, 1))      # loan just above the committed execution units
+        script = params + ["LOCK", 10 ** 60, 0]
+        if Ud:
+            script += ["DEFER_EXEC", Ud]
+        if Ufd:
+            script += ["DEFER_FIN", Ufd]
+        if U:
+            script += ["EXEC", U]
+        if Uf:
+            script += ["FIN", Uf]
+        script += ["REPAY", "UNITS"]
+        t = nat.call("fee_run", *script).split()
+        if t[0] == "panic":
+            return {"panic": True, "msg": " ".join(t[1:])}, ["native panic: " + " ".join(t[1:])]
+        toks = t[1:]
+        # ... REPAY -> ok|err ; UNITS -> <exec committed> <fin committed>
+        res, eu, fu = toks[-3], int(toks[-2]), int(toks[-1])
+        failed = []
+        if eu > int(vals["limit"]) or fu > int(vals["flimit"]):
+            failed.append("after repay_all (%s): %d execution units (limit %s), %d finalization units (limit %s)" % (
+                res, eu, vals["limit"], fu, vals["flimit"]))
+        want_ok = U + Ud <= int(vals["limit"]) and Uf + Ufd <= int(vals["flimit"])
+        if (res == "ok") != want_ok:
+            failed.append("repay_all -> %s with %d+%d execution units (limit %s), %d+%d finalization units (limit %s)" % (
+                res, U, Ud, vals["limit"], Uf, Ufd, vals["flimit"]))
+        return {"result": res, "exec_units": eu, "fin_units": fu}, failed
+
+
+JOBS["C06"].append(FeeRepayAll())
